@@ -277,7 +277,7 @@ def build_value(bc, kind, param, enc, seed, bit):
 def build_message(case):
     """-> (msg dict, expected dict of original keys after a round trip, cfg)"""
     cfg = get_cfg(case['cfg'])
-    enc, seed = case['enc'], case.get('seed', 0)
+    enc, seed = ('latin_1' if case['enc'] == 'default' else case['enc']), case.get('seed', 0)
     msg = {'MTI': case.get('mti', '1240')}
     exp = {'MTI': msg['MTI']}
     for bit, kind, param in case['f']:
